@@ -243,6 +243,40 @@ theorem returnE2E_single (r : Boxed) (out : Ty) :
     cases hw : v.wellFlagged <;> simp
     cases deliver1 v out <;> simp
 
+/-- `deliver` position by position -/
+theorem deliver_pointwise : ∀ (vs : List RV) (outs : List Ty) (rs : List RV), deliver vs outs = some rs →
+    rs.length = outs.length ∧ vs.length = outs.length ∧
+    ∀ j, j < outs.length → ∃ v o a, vs[j]? = some v ∧ outs[j]? = some o ∧ rs[j]? = some a ∧ deliver1 v o = some a := by
+  intro vs
+  induction vs with
+  | nil =>
+    intro outs rs h
+    cases outs with
+    | nil => simp [deliver] at h; subst h; simp
+    | cons o os => simp [deliver] at h
+  | cons v vs ih =>
+    intro outs rs h
+    cases outs with
+    | nil => simp [deliver] at h
+    | cons o os =>
+      simp only [deliver] at h
+      cases h1 : deliver1 v o with
+      | none => simp [h1] at h
+      | some a =>
+        cases h2 : deliver vs os with
+        | none => simp [h1, h2] at h
+        | some r =>
+          simp [h1, h2] at h
+          subst h
+          obtain ⟨i1, i2, i3⟩ := ih os r h2
+          refine ⟨by simp [i1], by simp [i2], ?_⟩
+          intro j hj
+          cases j with
+          | zero => exact ⟨v, o, a, by simp, by simp, by simp, h1⟩
+          | succ k =>
+            obtain ⟨v', o', a', g1, g2, g3, g4⟩ := i3 k (by simp at hj; omega)
+            exact ⟨v', o', a', by simpa using g1, by simpa using g2, by simpa using g3, g4⟩
+
 /-! ## I2V over lists -/
 
 theorem go_length (K : KindLists) (types : List Ty) (b : Bool) : ∀ (objs : List Boxed) (i : Nat) (vs : List RV),
